@@ -460,6 +460,10 @@ func init() {
 		name, _ := args[0].(string)
 		return fr.i.choose(name, int(fr.concreteInt(args[1]))), true
 	}
+	V["Param"] = func(fr *frame, args []value) (value, bool) {
+		name, _ := args[0].(string)
+		return fr.i.cfg.Params[name], true
+	}
 	V["ChooseStr"] = func(fr *frame, args []value) (value, bool) {
 		name, _ := args[0].(string)
 		opts := args[1].([]value)
@@ -550,6 +554,61 @@ func init() {
 	// Try(f) string: runs f, capturing panics and os.Exit as an outcome.
 	V["Try"] = func(fr *frame, args []value) (value, bool) {
 		return fr.try(args[0]), true
+	}
+	// Once(key, f) any: runs the concrete, deterministic computation f once
+	// per cell and returns the same result object on every later path.  The
+	// heap effects of f are kept for the cell (undone when the cell ends);
+	// everything done to the result afterwards is rolled back per path as usual.
+	V["Once"] = func(fr *frame, args []value) (value, bool) {
+		in := fr.i
+		key, _ := args[0].(string)
+		if in.path == nil {
+			inconclusive("Once outside a path")
+		}
+		if v, ok := in.onceCache[key]; ok {
+			return v, true
+		}
+		mark := len(in.undo)
+		pos := in.path.pos
+		nvars := len(in.path.vars)
+		res := in.call(fr, 0, args[1], nil)
+		if in.path.pos != pos || len(in.path.vars) != nvars {
+			inconclusive("vrt.Once(%s): the memoised computation made symbolic decisions", key)
+		}
+		// The stores made by f are kept (not rolled back): f must be a pure
+		// computation over fresh objects (the PEG parsers are: all their state
+		// lives in the per-call parser object).  Dropping the records also
+		// releases everything they retain.
+		for i := mark; i < len(in.undo); i++ {
+			in.undo[i] = undoRec{}
+		}
+		in.undo = in.undo[:mark]
+		in.onceCache[key] = res
+		return res, true
+	}
+	// Or / And: symbolic disjunction / conjunction without forking
+	V["Or"] = func(fr *frame, args []value) (value, bool) {
+		in := fr.i
+		acc := in.st.ff
+		for _, a := range variadic(args[0]) {
+			acc = in.st.Or(acc, in.toTerm(a, types.Bool))
+		}
+		return in.mkSym(acc, types.Bool), true
+	}
+	V["And"] = func(fr *frame, args []value) (value, bool) {
+		in := fr.i
+		acc := in.st.tt
+		for _, a := range variadic(args[0]) {
+			acc = in.st.And(acc, in.toTerm(a, types.Bool))
+		}
+		return in.mkSym(acc, types.Bool), true
+	}
+	// Abs64(v) int64: |v| without forking (ite)
+	V["Abs64"] = func(fr *frame, args []value) (value, bool) {
+		in := fr.i
+		t := in.toTerm(args[0], types.Int64)
+		neg := in.st.Slt(t, in.st.Const(64, 0))
+		return in.mkSym(in.st.Ite(neg, in.st.Un(OpNeg, t), t), types.Int64), true
 	}
 	V["IsConcrete"] = func(fr *frame, args []value) (value, bool) { return false, true }
 }
